@@ -420,6 +420,410 @@ inline Value projPolyLine2D(PolyLine2D* p)
   return r;
 }
 
+// ===================================================================== DbLine, DbGraphO
+inline VectorString dbLocNames(const Value& o) { VectorString l; for (auto& t : o.at("locators").arr) l.push_back(t.s() == "NA" ? std::string("") : t.s()); return l; }
+inline DbLine* buildDbLine(const Value& o)
+{
+  VectorInt counts;
+  for (auto& l : o.at("lines").arr) counts.push_back((int)l.arr.size());
+  DbLine* db = DbLine::createFromSamples(o.at("nech").i(), ELoadBy::SAMPLE, dbTab(o), counts, dbNames(o), VectorString(), false);
+  if (db) setLocators(db, o.at("locators"));
+  return db;
+}
+inline Value projDbLine(DbLine* db)
+{
+  Value p = Value::object();
+  p["ndim"] = I(db->getNDim());
+  Value lines = Value::array();
+  int start = 0;
+  for (int l = 0; l < db->getLineNumber(); l++)
+  {
+    Value a = Value::array();
+    int n = db->getLineSampleCount(l);
+    // addresses of the samples of the line, recovered from getLineBySample
+    for (int e = 0; e < db->getSampleNumber(); e++) if (db->getLineBySample(e) == l) a.push(I(e));
+    if ((int)a.arr.size() != n) a.push(Value("count-mismatch"));
+    lines.push(a);
+    start += n;
+  }
+  p["lines"] = lines;
+  projDbPart(db, p);
+  return p;
+}
+inline DbGraphO* buildDbGraphO(const Value& o)
+{
+  NF_Triplet nft;
+  int n = o.at("nech").i();
+  for (auto& a : o.at("arcs").arr)
+  {
+    // (the arc (n-1, n-1, 0) that fixes the size of the matrix is added by createFromSamples itself)
+    if ((int)num(a.arr[0]) == n - 1 && (int)num(a.arr[1]) == n - 1 && num(a.arr[2]) == 0.) continue;
+    nft.add((int)num(a.arr[0]), (int)num(a.arr[1]), num(a.arr[2]));
+  }
+  DbGraphO* db = DbGraphO::createFromSamples(o.at("nech").i(), ELoadBy::SAMPLE, dbTab(o), nft, dbNames(o), VectorString(), false);
+  if (db) setLocators(db, o.at("locators"));
+  return db;
+}
+inline Value projDbGraphO(DbGraphO* db)
+{
+  Value p = Value::object();
+  p["ndim"] = I(db->getNDim());
+  Value arcs = Value::array();
+  NF_Triplet nft = db->getMatArcs().getMatrixToTriplet();
+  for (int i = 0; i < db->getArcNumber(); i++)
+  {
+    Value a = Value::array();
+    a.push(T(nft.getRow(i))); a.push(T(nft.getCol(i))); a.push(T(nft.getValue(i)));
+    arcs.push(a);
+  }
+  p["arcs"] = arcs;
+  projDbPart(db, p);
+  return p;
+}
+inline Value queryDbGraphO(DbGraphO* db)
+{
+  Value q = queryDbPart(db);
+  q["nnodes"] = I(db->getNodeNumber());
+  q["narcs"] = I(db->getArcNumber());
+  Value v = Value::array();
+  for (int i = 0; i < db->getArcNumber(); i++) v.push(T(db->getArcValue(i)));
+  q["arcValues"] = v;
+  q["orphans"] = toksI(db->getOrphans());
+  q["endsDown"] = toksI(db->getEndsDown());
+  return q;
+}
+
+// ===================================================================== anamorphoses
+inline void setCont(AnamContinuous* a, const Value& c)
+{
+  a->setAzmin(num(c.arr[0])); a->setAzmax(num(c.arr[1])); a->setAymin(num(c.arr[2])); a->setAymax(num(c.arr[3]));
+  a->setPzmin(num(c.arr[4])); a->setPzmax(num(c.arr[5])); a->setPymin(num(c.arr[6])); a->setPymax(num(c.arr[7]));
+  a->setMean(num(c.arr[8])); a->setVariance(num(c.arr[9]));
+}
+inline Value projCont(const AnamContinuous* a)
+{
+  Value c = Value::array();
+  c.push(T(a->getAzmin())); c.push(T(a->getAzmax())); c.push(T(a->getAymin())); c.push(T(a->getAymax()));
+  c.push(T(a->getPzmin())); c.push(T(a->getPzmax())); c.push(T(a->getPymin())); c.push(T(a->getPymax()));
+  c.push(T(a->getMean())); c.push(T(a->getVariance()));
+  return c;
+}
+inline AnamHermite* buildAnamHermite(const Value& o)
+{
+  double r = num(o.at("rcoef"));
+  AnamHermite* a = AnamHermite::create((int)o.at("psi").arr.size(), true, r);
+  // the recipe gives the effective coefficients psi_n r^n (what getPsiHns returns); r is a power of 2: the division is exact
+  VectorDouble psi = nums(o.at("psi"));
+  double rn = 1.;
+  for (size_t n = 0; n < psi.size(); n++) { if (psi[n] != TEST) psi[n] /= rn; rn *= r; }
+  Value c = o.at("cont");
+  a->setPsiHns(psi);
+  a->calculateMeanAndVariance();       // as after a fit: mean and variance are those of the coefficients
+  a->setAzmin(num(c.arr[0])); a->setAzmax(num(c.arr[1])); a->setAymin(num(c.arr[2])); a->setAymax(num(c.arr[3]));
+  a->setPzmin(num(c.arr[4])); a->setPzmax(num(c.arr[5])); a->setPymin(num(c.arr[6])); a->setPymax(num(c.arr[7]));
+  return a;
+}
+inline Value projAnamHermite(AnamHermite* a)
+{
+  Value p = Value::object();
+  Value c = projCont(a);
+  c.arr[8] = Value("*"); c.arr[9] = Value("*");      // mean and variance are functions of the coefficients
+  p["cont"] = c;
+  p["rcoef"] = T(a->getRCoef());
+  p["psi"] = toks(a->getPsiHns());
+  return p;
+}
+inline Value queryAnamHermite(AnamHermite* a)
+{
+  Value q = Value::object();
+  q["nbpoly"] = I(a->getNbPoly());
+  q["mean"] = T(a->getMean());
+  q["variance"] = T(a->getVariance());
+  if (a->getNbPoly() >= 1 && a->getNbPoly() <= 50)
+  {
+    bool fin = true;
+    for (double v : a->getPsiHns()) if (FFFF(v) || std::fabs(v) > 1e10) fin = false;
+    if (fin) { Value z = Value::array(); for (double y : {-1., 0., 0.5}) z.push(T(a->transformToRawValue(y))); q["z"] = z; }
+  }
+  return q;
+}
+inline AnamEmpirical* buildAnamEmpirical(const Value& o)
+{
+  AnamEmpirical* a = AnamEmpirical::create((int)o.at("z").arr.size(), num(o.at("sigma2e")));
+  a->setDisc(nums(o.at("z")), nums(o.at("y")));
+  setCont(a, o.at("cont"));
+  return a;
+}
+inline Value projAnamEmpirical(AnamEmpirical* a)
+{
+  Value p = Value::object();
+  p["cont"] = projCont(a);
+  p["sigma2e"] = T(a->getSigma2e());
+  p["z"] = toks(a->getZDisc());
+  p["y"] = toks(a->getYDisc());
+  return p;
+}
+inline Value extraAnamEmpirical(AnamEmpirical* a) { Value x = Value::object(); x["ndisc"] = I(a->getNDisc()); return x; }
+inline AnamDiscreteIR* buildAnamDiscreteIR(const Value& o)
+{
+  AnamDiscreteIR* a = AnamDiscreteIR::create(num(o.at("rcoef")));
+  a->setNCut(o.at("ncut").i());
+  a->setNElem(o.at("nelem").i());
+  a->setZCut(nums(o.at("zcut")));
+  a->setStats(nums(o.at("stats")));
+  return a;
+}
+inline Value projAnamDiscreteIR(AnamDiscreteIR* a)
+{
+  Value p = Value::object();
+  p["ncut"] = I(a->getNCut());
+  p["nelem"] = I(a->getNElem());
+  p["zcut"] = toks(a->getZCut());
+  p["stats"] = toks(a->getStats().getValues());
+  p["rcoef"] = T(a->getRCoef());
+  return p;
+}
+inline Value extraAnamDiscreteIR(AnamDiscreteIR* a) { Value x = Value::object(); x["nclass"] = I(a->getNClass()); return x; }
+
+// ===================================================================== meshes
+inline MeshEStandard* buildMeshEStandard(const Value& o)
+{
+  int ndim = o.at("ndim").i(), na = o.at("napices").i(), npm = o.at("npm").i(), nm = o.at("nmeshes").i();
+  MatrixRectangular ap(na, ndim);
+  ap.setValues(nums(o.at("apices")));
+  MatrixInt ms(nm, npm);
+  ms.setValues(ints(o.at("meshes")));
+  return MeshEStandard::createFromExternal(ap, ms, false);
+}
+inline Value projMeshEStandard(MeshEStandard* m)
+{
+  Value p = Value::object();
+  int ndim = m->getNDim(), na = m->getNApices(), npm = m->getNApexPerMesh(), nm = m->getNMeshes();
+  p["ndim"] = I(ndim); p["napices"] = I(na); p["npm"] = I(npm); p["nmeshes"] = I(nm);
+  // same storage order as MatrixRectangular::setValues / getValues of the recipe
+  MatrixRectangular ap(na, ndim);
+  for (int i = 0; i < na; i++) for (int d = 0; d < ndim; d++) ap.setValue(i, d, m->getApexCoor(i, d));
+  p["apices"] = toks(ap.getValues());
+  MatrixInt ms(nm, npm);
+  for (int i = 0; i < nm; i++) for (int r = 0; r < npm; r++) ms.setValue(i, r, m->getApex(i, r));
+  p["meshes"] = toksI(ms.getValues());
+  return p;
+}
+inline Value queryMesh(AMesh* m)
+{
+  Value q = Value::object();
+  Value sz = Value::array();
+  if (m->getNDim() >= 2) for (int i = 0; i < m->getNMeshes() && i < 20; i++) sz.push(T(m->getMeshSize(i)));
+  q["meshSizes"] = sz;
+  Value ap = Value::array();
+  for (int i = 0; i < m->getNMeshes() && i < 20; i++) for (int r = 0; r < m->getNApexPerMesh(); r++) ap.push(I(m->getApex(i, r)));
+  q["apexRanks"] = ap;
+  Value co = Value::array();
+  for (int i = 0; i < m->getNApices() && i < 30; i++) for (int d = 0; d < (int)m->getNDim(); d++) co.push(T(m->getApexCoor(i, d)));
+  q["coords"] = co;
+  return q;
+}
+inline MeshETurbo* buildMeshETurbo(const Value& o)
+{
+  int ndim = o.at("ndim").i();
+  VectorDouble angles(ndim, 0.);
+  bool rot = ndim == 2 && num(o.at("rotmat").arr[0]) == 0.;
+  if (rot) angles[0] = 90.;
+  return MeshETurbo::create(ints(o.at("nx")), nums(o.at("dx")), nums(o.at("x0")), angles, o.at("polar").i() != 0, false);
+}
+inline Value projMeshETurbo(MeshETurbo* m)
+{
+  Value p = Value::object();
+  const Grid& g = m->getGrid();
+  int ndim = m->getNDim();
+  p["ndim"] = I(ndim);
+  p["nx"] = toksI(g.getNXs());
+  p["dx"] = toks(g.getDXs());
+  p["x0"] = toks(g.getX0s());
+  p["rotmat"] = toks(g.getRotMat());
+  // no getter for the polarisation: it is recognised on the connectivity (2-D / 3-D only)
+  int polar = 0;
+  if (ndim >= 2 && ndim <= 3 && m->getNMeshes() > 0 && m->getNMeshes() < 100000)
+  {
+    MeshETurbo* ref = MeshETurbo::createFromGridInfo(&g, false, false);
+    if (ref && ref->getNMeshes() == m->getNMeshes())
+      for (int i = 0; i < m->getNMeshes() && !polar; i++) for (int r = 0; r < m->getNApexPerMesh(); r++) if (ref->getApex(i, r) != m->getApex(i, r)) { polar = 1; break; }
+    delete ref;
+  }
+  p["polar"] = I(polar);
+  p["mode"] = I(m->getMeshIndirect().getMode());
+  p["nmesh"] = I(m->getNMeshes());
+  p["ngrid"] = I(m->getNApices());
+  return p;
+}
+
+// ===================================================================== Faults, Rule, RuleShift, FracEnviron
+inline Faults* buildFaults(const Value& o)
+{
+  Faults* f = new Faults();
+  for (auto& xy : o.at("faults").arr)
+  {
+    VectorDouble x, y;
+    for (auto& pt : xy.arr) { x.push_back(num(pt.arr[0])); y.push_back(num(pt.arr[1])); }
+    f->addFault(PolyLine2D(x, y));
+  }
+  return f;
+}
+inline Value projFaults(Faults* f)
+{
+  Value p = Value::object();
+  Value fs = Value::array();
+  for (int k = 0; k < f->getNFaults(); k++)
+  {
+    const PolyLine2D& pl = f->getFault(k);
+    Value xy = Value::array();
+    for (int i = 0; i < pl.getNPoints(); i++) { Value pt = Value::array(); pt.push(T(pl.getX(i))); pt.push(T(pl.getY(i))); xy.push(pt); }
+    fs.push(xy);
+  }
+  p["faults"] = fs;
+  return p;
+}
+inline VectorString ruleNames(const Value& nodes)
+{
+  VectorString names;
+  for (auto& r : nodes.arr)
+  {
+    int type = r.arr[3].i(), fac = r.arr[5].i();
+    if (type == 1) names.push_back("S");
+    else if (type == 2) names.push_back("T");
+    else names.push_back("F" + std::to_string(fac));
+  }
+  return names;
+}
+inline void ruleRows(const Node* node, int ftype, int frank, int fvers, int* rank, Value& rows, int depth = 0)
+{
+  if (!node || depth > 64) return;
+  Value r = Value::array();
+  r.push(I(ftype)); r.push(I(frank)); r.push(I(fvers)); r.push(I(node->getOrient()));
+  int cur;
+  if (node->getFacies() <= 0) { cur = *rank = (*rank) + 1; r.push(I(cur)); r.push(I(0)); }
+  else { cur = *rank; r.push(I(cur)); r.push(I(node->getFacies())); }
+  rows.push(r);
+  ruleRows(node->getR1(), node->getOrient(), cur, 1, rank, rows, depth + 1);
+  ruleRows(node->getR2(), node->getOrient(), cur, 2, rank, rows, depth + 1);
+}
+inline void projRulePart(const Rule* r, Value& p)
+{
+  p["mode"] = I(r->getModeRule().getValue());
+  p["rho"] = T(r->getRho());
+  Value rows = Value::array();
+  int rank = 0;
+  ruleRows(r->getMainNode(), 0, 0, 0, &rank, rows);
+  p["nodes"] = rows;
+}
+inline Rule* buildRule(const Value& o) { return Rule::createFromNames(ruleNames(o.at("nodes")), num(o.at("rho"))); }
+inline Value projRule(Rule* r) { Value p = Value::object(); projRulePart(r, p); return p; }
+inline Value queryRule(Rule* r)
+{
+  Value q = Value::object();
+  if (!r->getMainNode()) return q;
+  q["nfacies"] = I(r->getFaciesNumber());
+  Value f = Value::array();
+  static const double G[5][2] = {{0, 0}, {-1, 0.5}, {1, -0.5}, {0.3, 2}, {-2, -2}};
+  for (int k = 0; k < 5; k++) f.push(I(r->getFaciesFromGaussian(G[k][0], G[k][1])));
+  q["facies"] = f;
+  return q;
+}
+inline RuleShift* buildRuleShift(const Value& o) { return RuleShift::createFromNames(ruleNames(o.at("nodes")), nums(o.at("shift"))); }
+inline Value projRuleShift(RuleShift* r)
+{
+  Value p = Value::object();
+  projRulePart(r, p);
+  VectorDouble sh = r->getShift();
+  sh.resize(3, 0.);
+  p["shift"] = toks(sh);
+  return p;
+}
+inline FracEnviron* buildFracEnviron(const Value& o)
+{
+  const Value& par = o.at("par");
+  FracEnviron* e = FracEnviron::create(num(par.arr[0]), num(par.arr[1]), num(par.arr[2]), num(par.arr[3]), num(par.arr[4]), num(par.arr[5]));
+  for (auto& f : o.at("fams").arr)
+  {
+    VectorDouble v = nums(f);
+    e->addFamily(FracFamily(v[0], v[1], v[2], v[3], v[4], v[5], v[6], v[7], v[8], v[9]));
+  }
+  for (auto& f : o.at("faults").arr)
+  {
+    FracFault ft(num(f.at("coord")), num(f.at("orient")));
+    for (size_t k = 0; k < f.at("thetal").arr.size(); k++)
+      ft.addFaultPerFamily(num(f.at("thetal").arr[k]), num(f.at("thetar").arr[k]), num(f.at("rangel").arr[k]), num(f.at("ranger").arr[k]));
+    e->addFault(ft);
+  }
+  return e;
+}
+inline Value projFracEnviron(FracEnviron* e)
+{
+  Value p = Value::object();
+  Value par = Value::array();
+  par.push(T(e->getXmax())); par.push(T(e->getYmax())); par.push(T(e->getDeltax())); par.push(T(e->getDeltay())); par.push(T(e->getMean())); par.push(T(e->getStdev()));
+  p["par"] = par;
+  Value fams = Value::array();
+  for (int k = 0; k < e->getNFamilies(); k++)
+  {
+    const FracFamily& f = e->getFamily(k);
+    Value v = Value::array();
+    v.push(T(f.getOrient())); v.push(T(f.getDorient())); v.push(T(f.getTheta0())); v.push(T(f.getAlpha())); v.push(T(f.getRatcst()));
+    v.push(T(f.getProp1())); v.push(T(f.getProp2())); v.push(T(f.getAterm())); v.push(T(f.getBterm())); v.push(T(f.getRange()));
+    fams.push(v);
+  }
+  p["fams"] = fams;
+  Value faults = Value::array();
+  for (int k = 0; k < e->getNFaults(); k++)
+  {
+    const FracFault& f = e->getFault(k);
+    Value v = Value::object();
+    v["coord"] = T(f.getCoord()); v["orient"] = T(f.getOrient());
+    v["thetal"] = toks(f.getThetal()); v["thetar"] = toks(f.getThetar()); v["rangel"] = toks(f.getRangel()); v["ranger"] = toks(f.getRanger());
+    faults.push(v);
+  }
+  p["faults"] = faults;
+  return p;
+}
+
+// ===================================================================== grid exchange formats (written and read)
+inline std::string tok6(double x) { if (x == TEST || std::isnan(x) || std::isinf(x) || x > 1e29) return "NA"; char b[64]; snprintf(b, sizeof b, "%.6g", x); return b; }
+inline Value projGridFmt(DbGrid* g)
+{
+  Value p = Value::object();
+  int nd = g->getNDim();
+  p["ndim_ge2"] = Value(nd >= 2);
+  Value nx = Value::array(), x0 = Value::array(), dx = Value::array(), an = Value::array();
+  for (int d = 0; d < 2 && d < nd; d++) { nx.push(I(g->getNX(d))); x0.push(Value(tok6(g->getX0(d)))); dx.push(Value(tok6(g->getDX(d)))); an.push(Value(tok6(g->getAngle(d)))); }
+  for (int d = 2; d < nd; d++) nx.push(I(g->getNX(d)));      // further axes (layers) must be degenerate
+  while (nx.arr.size() < 3) nx.push(I(1));
+  p["nx"] = nx; p["x0"] = x0; p["dx"] = dx; p["angles"] = an;
+  p["nech"] = I(g->getSampleNumber());
+  Value v = Value::array();
+  int ncol = g->getColumnNumber();
+  int icol = g->getColIdxByLocator(ELoc::Z, 0);
+  if (icol < 0) icol = ncol - 1;
+  for (int e = 0; e < g->getSampleNumber() && icol >= 0; e++) v.push(Value(tok6(g->getValueByColIdx(e, icol))));
+  p["values"] = v;
+  return p;
+}
+template <class F> bool dumpGridFmt(DbGrid* g, const std::string& file)
+{
+  int icol = g->getColIdxByLocator(ELoc::Z, 0);
+  if (icol < 0) icol = g->getColumnNumber() - 1;
+  F f(file.c_str(), g);
+  f.setCol(icol);
+  return f.writeInFile() == 0;
+}
+template <class F> Handler mkGridFmt()
+{
+  std::function<Value(DbGrid*)> none = [](DbGrid*) { return Value::object(); };
+  Handler h = mk<DbGrid>(buildDbGrid, projGridFmt, none, none, [](const Value&) { return 2; });
+  h.dump = [](void* p, const std::string& f) { return dumpGridFmt<F>((DbGrid*)p, f); };
+  h.load = [](const std::string& f) { F fmt(f.c_str()); return (void*)fmt.readGridFromFile(); };
+  return h;
+}
+
 // ===================================================================== registry
 inline int ndimField(const Value& o) { return o.has("ndim") ? o.at("ndim").i() : 2; }
 template <class X> std::function<Value(X*)> noneOf() { return [](X*) { return Value::object(); }; }
@@ -441,6 +845,27 @@ inline std::map<std::string, Handler>& registry()
   R["Vario"] = mk<Vario>(buildVario, projVario, noneOf<Vario>(), queryVario, ndimField);
   R["Polygons"] = mk<Polygons>(buildPolygons, projPolygons, noneOf<Polygons>(), queryPolygons, two);
   R["PolyLine2D"] = mk<PolyLine2D>(buildPolyLine2D, projPolyLine2D, noneOf<PolyLine2D>(), noneOf<PolyLine2D>(), two);
+  R["DbLine"] = mk<DbLine>(buildDbLine, projDbLine, noneOf<DbLine>(), [](DbLine* d) { return queryDbPart(d); }, ndimField);
+  R["DbGraphO"] = mk<DbGraphO>(buildDbGraphO, projDbGraphO, noneOf<DbGraphO>(), queryDbGraphO, ndimField);
+  R["AnamHermite"] = mk<AnamHermite>(buildAnamHermite, projAnamHermite, noneOf<AnamHermite>(), queryAnamHermite, two);
+  R["AnamEmpirical"] = mk<AnamEmpirical>(buildAnamEmpirical, projAnamEmpirical, extraAnamEmpirical, noneOf<AnamEmpirical>(), two);
+  R["AnamDiscreteIR"] = mk<AnamDiscreteIR>(buildAnamDiscreteIR, projAnamDiscreteIR, extraAnamDiscreteIR, noneOf<AnamDiscreteIR>(), two);
+  R["MeshEStandard"] = mk<MeshEStandard>(buildMeshEStandard, projMeshEStandard, noneOf<MeshEStandard>(), [](MeshEStandard* m) { return queryMesh(m); }, ndimField);
+  R["MeshETurbo"] = mk<MeshETurbo>(buildMeshETurbo, projMeshETurbo, noneOf<MeshETurbo>(), [](MeshETurbo* m) { return queryMesh(m); }, ndimField);
+  R["Faults"] = mk<Faults>(buildFaults, projFaults, noneOf<Faults>(), noneOf<Faults>(), two);
+  R["Rule"] = mk<Rule>(buildRule, projRule, noneOf<Rule>(), queryRule, two);
+  R["RuleShift"] = mk<RuleShift>(buildRuleShift, projRuleShift, noneOf<RuleShift>(), noneOf<RuleShift>(), two);
+  // RuleShift has no createFromNF of its own: the only public loader is the one inherited from Rule
+  R["RuleShift"].load = [](const std::string& f) {
+    Rule* r = Rule::createFromNF(f, false);
+    RuleShift* rs = dynamic_cast<RuleShift*>(r);
+    if (r && !rs) delete r;
+    return (void*)rs;
+  };
+  R["GridZycor"] = mkGridFmt<GridZycor>();
+  R["GridIfpEn"] = mkGridFmt<GridIfpEn>();
+  R["GridBmp"] = mkGridFmt<GridBmp>();
+  R["FracEnviron"] = mk<FracEnviron>(buildFracEnviron, projFracEnviron, noneOf<FracEnviron>(), noneOf<FracEnviron>(), two);
   return R;
 }
 
